@@ -1,6 +1,6 @@
 import ESV.Macro.OrderLemmas
 /-
-Theorems about `visitStart` / `compileMacros` / `topoOrder` on the abstract input (ESV/Macro/Order.lean).
+Theorems about `visitStart` / `compileMacros` (the repaired ordering loop) on the abstract input (ESV/Macro/Order.lean).
 -/
 namespace ESV.Macro
 
@@ -15,74 +15,178 @@ def Topological (inp : Input α) (l : List α) : Prop := ∀ callee caller, Call
 /-- the names the visitor knows: imported macros, defined macros, called macros -/
 def Mentioned (inp : Input α) (x : α) : Prop := x ∈ inp.imported ∨ ∃ d ∈ inp.defs, x = d.1 ∨ x ∈ d.2
 
+/-! ### the ordering loop -/
+
+namespace Graph
+
+theorem mem_preds {g : Graph α} (wf : g.WF) {u v : α} : u ∈ g.preds v ↔ g.E u v := by
+  simp only [preds, List.mem_filter, decide_eq_true_eq, E]
+  exact ⟨fun h => h.2, fun h => ⟨wf.src _ _ h, h⟩⟩
+
+theorem orderLoop_sound {g : Graph α} (wf : g.WF) : ∀ (f : Nat) (out rem l : List α), (out ++ rem).Nodup →
+    (∀ v ∈ out, ∀ u, g.E u v → [u, v] <+ out) → g.orderLoop f out rem = some l →
+    l ~ out ++ rem ∧ ∀ v ∈ l, ∀ u, g.E u v → [u, v] <+ l := by
+  intro f
+  induction f with
+  | zero =>
+    intro out rem l hnd hinv h
+    cases rem with
+    | nil =>
+      simp only [orderLoop, Option.some.injEq] at h
+      subst h
+      exact ⟨by simp, hinv⟩
+    | cons x xs => simp [orderLoop] at h
+  | succ f ih =>
+    intro out rem l hnd hinv h
+    cases rem with
+    | nil =>
+      simp only [orderLoop, Option.some.injEq] at h
+      subst h
+      exact ⟨by simp, hinv⟩
+    | cons x xs =>
+      simp only [orderLoop] at h
+      split at h
+      · cases h
+      · rename_i v hf
+        have hv : v ∈ x :: xs := List.mem_of_find?_eq_some hf
+        have hready := List.find?_some hf
+        simp only [List.all_eq_true, decide_eq_true_eq] at hready
+        have hperm : (out ++ [v]) ++ (x :: xs).erase v ~ out ++ x :: xs := by
+          have := (List.perm_cons_erase hv).symm
+          simpa using List.Perm.append_left out this
+        have hvout : v ∉ out := by
+          intro hvo
+          have := List.nodup_append.mp hnd
+          exact this.2.2 v hvo v hv rfl
+        obtain ⟨h1, h2⟩ := ih (out ++ [v]) ((x :: xs).erase v) l (hperm.symm.nodup hnd) (by
+          intro w hw u huw
+          cases List.mem_append.mp hw with
+          | inl hwo => exact (hinv w hwo u huw).trans (List.sublist_append_left _ _)
+          | inr hwv =>
+            have : w = v := by simpa using hwv
+            subst this
+            have huo : u ∈ out := hready u ((mem_preds wf).mpr huw)
+            exact List.Sublist.append (List.singleton_sublist.mpr huo) (List.Sublist.refl [w])) h
+        exact ⟨h1.trans hperm, h2⟩
+
+theorem orderLoop_complete {g : Graph α} (wf : g.WF) (ac : g.Acyclic) : ∀ (f : Nat) (out rem : List α), rem ⊆ g.vs →
+    rem.length ≤ f → (∀ x ∈ g.vs, x ∈ out ∨ x ∈ rem) → ∃ l, g.orderLoop f out rem = some l := by
+  intro f
+  induction f with
+  | zero =>
+    intro out rem _ hlen _
+    have : rem = [] := List.eq_nil_of_length_eq_zero (by omega)
+    subst this
+    exact ⟨out, by simp [orderLoop]⟩
+  | succ f ih =>
+    intro out rem hsub hlen hcov
+    cases rem with
+    | nil => exact ⟨out, by simp [orderLoop]⟩
+    | cons x xs =>
+      simp only [orderLoop]
+      obtain ⟨m, hm, hmin⟩ := exists_minimal ac (x :: xs) hsub (by simp)
+      have hex : ((x :: xs).find? (fun v => (g.preds v).all (fun u => u ∈ out))).isSome := by
+        rw [List.find?_isSome]
+        refine ⟨m, hm, ?_⟩
+        simp only [List.all_eq_true, decide_eq_true_eq]
+        intro u hu
+        have hum := (mem_preds wf).mp hu
+        cases hcov u (wf.src _ _ hum) with
+        | inl h => exact h
+        | inr h => exact absurd h (hmin u hum)
+      cases hf : (x :: xs).find? (fun v => (g.preds v).all (fun u => u ∈ out)) with
+      | none => rw [hf] at hex; cases hex
+      | some v =>
+        simp only []
+        have hv : v ∈ x :: xs := List.mem_of_find?_eq_some hf
+        apply ih
+        · exact fun y hy => hsub (List.mem_of_mem_erase hy)
+        · rw [List.length_erase_of_mem hv]
+          simp only [List.length_cons] at hlen ⊢
+          omega
+        · intro y hy
+          cases hcov y hy with
+          | inl h => exact .inl (List.mem_append_left _ h)
+          | inr h =>
+            by_cases hyv : y = v
+            · exact .inl (by simp [hyv])
+            · exact .inr ((List.mem_erase_of_ne hyv).mpr h)
+
+end Graph
+
 theorem visitStart_eq (inp : Input α) :
     visitStart inp = match (build inp).checkCycles with
-      | some v => .error v
-      | none => .ok (build inp).resolutionOrder := rfl
+      | some v => .error (.cycle v)
+      | none => match (build inp).resolutionOrder with
+        | some l => .ok l
+        | none => .error .stopIteration := rfl
 
 /-- the cycle check rejects exactly the inputs whose macros call each other in a circle -/
-theorem cycle_detected_iff (inp : Input α) : (∃ v, visitStart inp = .error v) ↔ ¬ Acyclic inp := by
+theorem cycle_detected_iff (inp : Input α) : (∃ v, visitStart inp = .error (.cycle v)) ↔ ¬ Acyclic inp := by
   have wf := (build_spec inp).1
   rw [← build_acyclic_iff, ← Graph.checkCycles_none_iff wf, visitStart_eq]
   cases h : (build inp).checkCycles with
-  | none => simp
+  | none =>
+    cases (build inp).resolutionOrder <;> simp
   | some v => simp
 
-theorem visitStart_ok_of_acyclic {inp : Input α} (ac : Acyclic inp) : visitStart inp = .ok (build inp).resolutionOrder := by
+/-- for an acyclic input the loop finds a next macro in every round -/
+theorem resolutionOrder_complete (inp : Input α) (ac : Acyclic inp) : ∃ l, (build inp).resolutionOrder = some l := by
+  obtain ⟨wf, _, _⟩ := build_spec inp
+  exact Graph.orderLoop_complete wf ((build_acyclic_iff inp).mpr ac) _ [] _ (fun _ h => h) (Nat.le_refl _) (fun x hx => .inr hx)
+
+/-- `next(…)` never raises `StopIteration`: after `_check_cycles()` some macro always has all its callees resolved -/
+theorem visit_never_stops (inp : Input α) : visitStart inp ≠ .error .stopIteration := by
   have wf := (build_spec inp).1
-  have h := (Graph.checkCycles_none_iff wf).mpr ((build_acyclic_iff inp).mpr ac)
-  rw [visitStart_eq, h]
+  rw [visitStart_eq]
+  cases h : (build inp).checkCycles with
+  | some v => simp
+  | none =>
+    have ac : Acyclic inp := (build_acyclic_iff inp).mp ((Graph.checkCycles_none_iff wf).mp h)
+    obtain ⟨l, hl⟩ := resolutionOrder_complete inp ac
+    simp [hl]
 
-theorem roots_subset_vs (g : Graph α) : g.roots ⊆ g.vs := fun _ hx => (Graph.mem_roots.mp hx).1
-
-/-- for an acyclic input the resolution order has no duplicates and consists exactly of the mentioned names -/
-theorem order_spec {inp : Input α} (ac : Acyclic inp) {l : List α} (h : visitStart inp = .ok l) :
-    l.Nodup ∧ ∀ x, x ∈ l ↔ Mentioned inp x := by
-  obtain ⟨wf, hvs, _⟩ := build_spec inp
-  have gac := (build_acyclic_iff inp).mpr ac
-  rw [visitStart_ok_of_acyclic ac] at h
-  have hl : l = (build inp).roots.foldl (build inp).mergeRoot [] := by
-    injection h with h; exact h.symm
-  obtain ⟨h1, h2⟩ := Graph.foldl_mergeRoot_spec wf (build inp).roots [] (roots_subset_vs _) (by simp)
-  rw [← hl] at h1 h2
-  refine ⟨h1, fun x => ?_⟩
-  rw [h2 x]
-  simp only [List.not_mem_nil, false_or]
+/-- every acyclic input gets a resolution order, and only acyclic inputs do -/
+theorem visitStart_ok_iff (inp : Input α) : (∃ l, visitStart inp = .ok l) ↔ Acyclic inp := by
+  have wf := (build_spec inp).1
   constructor
-  · rintro ⟨r, hr, hx⟩
-    have := (Graph.bfs_spec wf (roots_subset_vs _ hr)).2.1 hx
-    exact (hvs x).mp this
-  · intro hm
-    have hx : x ∈ (build inp).vs := (hvs x).mpr hm
-    obtain ⟨r, hr, hrx⟩ := Graph.exists_root_reach wf gac x hx
-    exact ⟨r, hr, Graph.mem_bfs_of_path wf (roots_subset_vs _ hr) hrx⟩
+  · rintro ⟨l, hl⟩
+    rw [visitStart_eq] at hl
+    cases h : (build inp).checkCycles with
+    | some v => rw [h] at hl; cases hl
+    | none => exact (build_acyclic_iff inp).mp ((Graph.checkCycles_none_iff wf).mp h)
+  · intro ac
+    have h := (Graph.checkCycles_none_iff wf).mpr ((build_acyclic_iff inp).mpr ac)
+    obtain ⟨l, hl⟩ := resolutionOrder_complete inp ac
+    exact ⟨l, by rw [visitStart_eq, h, hl]⟩
+
+/-- the resolution order has no duplicates, consists exactly of the mentioned names and lists every callee before its callers -/
+theorem order_spec {inp : Input α} {l : List α} (h : visitStart inp = .ok l) :
+    l.Nodup ∧ (∀ x, x ∈ l ↔ Mentioned inp x) ∧ Topological inp l := by
+  obtain ⟨wf, hvs, he⟩ := build_spec inp
+  have hl : (build inp).resolutionOrder = some l := by
+    rw [visitStart_eq] at h
+    cases hc : (build inp).checkCycles with
+    | some v => rw [hc] at h; cases h
+    | none =>
+      rw [hc] at h
+      cases hr : (build inp).resolutionOrder with
+      | none => rw [hr] at h; cases h
+      | some l' => rw [hr] at h; injection h with h; rw [h]
+  obtain ⟨h1, h2⟩ := Graph.orderLoop_sound wf _ [] _ l (by simpa using wf.nodup) (by simp) hl
+  simp only [List.nil_append] at h1
+  refine ⟨h1.symm.nodup wf.nodup, fun x => by rw [h1.mem_iff, hvs x]; rfl, ?_⟩
+  intro a b hab
+  have hE := (he a b).mpr hab
+  exact h2 b (h1.mem_iff.mpr (wf.tgt _ _ hE)) a hE
 
 /-- every macro defined in the file occurs in the resolution order exactly once (so `list.index` never raises) -/
-theorem order_total {inp : Input α} (ac : Acyclic inp) {l : List α} (h : visitStart inp = .ok l) :
-    ∀ d ∈ inp.defs, l.count d.1 = 1 := by
+theorem order_total {inp : Input α} {l : List α} (h : visitStart inp = .ok l) : ∀ d ∈ inp.defs, l.count d.1 = 1 := by
   intro d hd
-  obtain ⟨hnd, hmem⟩ := order_spec ac h
+  obtain ⟨hnd, hmem, _⟩ := order_spec h
   have : d.1 ∈ l := (hmem d.1).mpr (.inr ⟨d, hd, .inl rfl⟩)
   rw [hnd.count]
   simp [this]
-
-/-- under the guard (all call chains between a macro and a leaf macro have equal length) callees precede callers -/
-theorem order_topological_partial {inp : Input α} (ac : Acyclic inp) (hg : guard inp = true) {l : List α}
-    (h : visitStart inp = .ok l) : Topological inp l := by
-  obtain ⟨wf, hvs, he⟩ := build_spec inp
-  obtain ⟨_, hmem⟩ := order_spec ac h
-  rw [visitStart_ok_of_acyclic ac] at h
-  have hl : l = (build inp).roots.foldl (build inp).mergeRoot [] := by
-    injection h with h; exact h.symm
-  intro a b hab
-  have hE : (build inp).E a b := (he a b).mpr hab
-  have ha : a ∈ l := (hmem a).mpr ((hvs a).mp (wf.src _ _ hE))
-  have hb : b ∈ l := (hmem b).mpr ((hvs b).mp (wf.tgt _ _ hE))
-  simp only [guard, Graph.graded, List.all_eq_true] at hg
-  have := Graph.foldl_mergeRoot_respects wf (build inp).roots [] (roots_subset_vs _) (by simp)
-    (fun r hr => Graph.bfs_respects_edges wf (hg r hr)) (by simp) a b hE
-  rw [← hl] at this
-  exact this ha hb
 
 /-! ### compiling in a topological order succeeds -/
 
@@ -172,11 +276,12 @@ theorem compile_suffix (inp : Input α) (l : List α) (hnd : l.Nodup)
         simp only [List.mem_map, List.mem_filter, decide_eq_true_eq]
         exact ⟨d, ⟨hd, hmn ▸ hdn⟩, hdn⟩
 
-/-- if the resolution order is topological (and every called macro is defined or imported) all macros compile -/
-theorem compiles_of_topological (inp : Input α) {l : List α} (h : visitStart inp = .ok l) (hnd : l.Nodup)
+/-- compiling in a duplicate-free order that contains every defined macro and lists callees first succeeds, provided
+every called macro is defined or imported -/
+theorem compiles_of_topological (inp : Input α) {l : List α} (hnd : l.Nodup)
     (hall : ∀ d ∈ inp.defs, d.1 ∈ l)
     (hclosed : ∀ d ∈ inp.defs, ∀ c ∈ d.2, c ∈ inp.imported ∨ ∃ d' ∈ inp.defs, d'.1 = c)
-    (htopo : Topological inp l) : ∃ known, compileMacros inp = .ok known := by
+    (htopo : Topological inp l) : ∃ known, compileWith inp l = .ok known := by
   have hs : sortDefs l inp.defs = .ok (l.flatMap (fun n => inp.defs.filter (fun d => d.1 = n))) := by
     have : inp.defs.find? (fun d => d.1 ∉ l) = none := by
       rw [List.find?_eq_none]
@@ -185,130 +290,15 @@ theorem compiles_of_topological (inp : Input α) {l : List α} (h : visitStart i
     unfold sortDefs
     rw [this]
   obtain ⟨k, hk⟩ := compile_suffix inp l hnd hclosed htopo l [] inp.imported (by simp) (fun _ hx => hx) (by simp)
-  exact ⟨k, by simp only [compileMacros, h, hs, hk]⟩
+  exact ⟨k, by simp only [compileWith, hs, hk]⟩
 
-/-- every acyclic, closed set of macro definitions satisfying the guard compiles (as far as ordering is concerned) -/
-theorem all_macros_compile_partial (inp : Input α) (ac : Acyclic inp) (hg : guard inp = true)
+/-- every acyclic, closed set of macro definitions compiles (as far as ordering is concerned), in any definition order -/
+theorem all_acyclic_compile (inp : Input α) (ac : Acyclic inp)
     (hclosed : ∀ d ∈ inp.defs, ∀ c ∈ d.2, c ∈ inp.imported ∨ ∃ d' ∈ inp.defs, d'.1 = c) :
     ∃ known, compileMacros inp = .ok known := by
-  have h := visitStart_ok_of_acyclic ac
-  obtain ⟨hnd, hmem⟩ := order_spec ac h
-  exact compiles_of_topological inp h hnd (fun d hd => (hmem d.1).mpr (.inr ⟨d, hd, .inl rfl⟩)) hclosed
-    (order_topological_partial ac hg h)
-
-/-! ### the repair: a verified topological order -/
-
-namespace Graph
-
-theorem mem_preds {g : Graph α} (wf : g.WF) {u v : α} : u ∈ g.preds v ↔ g.E u v := by
-  simp only [preds, List.mem_filter, decide_eq_true_eq, E]
-  exact ⟨fun h => h.2, fun h => ⟨wf.src _ _ h, h⟩⟩
-
-theorem topoLoop_sound {g : Graph α} (wf : g.WF) : ∀ (f : Nat) (out rem l : List α), (out ++ rem).Nodup →
-    (∀ v ∈ out, ∀ u, g.E u v → [u, v] <+ out) → g.topoLoop f out rem = some l →
-    l ~ out ++ rem ∧ ∀ v ∈ l, ∀ u, g.E u v → [u, v] <+ l := by
-  intro f
-  induction f with
-  | zero =>
-    intro out rem l hnd hinv h
-    cases rem with
-    | nil =>
-      simp only [topoLoop, Option.some.injEq] at h
-      subst h
-      exact ⟨by simp, hinv⟩
-    | cons x xs => simp [topoLoop] at h
-  | succ f ih =>
-    intro out rem l hnd hinv h
-    cases rem with
-    | nil =>
-      simp only [topoLoop, Option.some.injEq] at h
-      subst h
-      exact ⟨by simp, hinv⟩
-    | cons x xs =>
-      simp only [topoLoop] at h
-      split at h
-      · cases h
-      · rename_i v hf
-        have hv : v ∈ x :: xs := List.mem_of_find?_eq_some hf
-        have hready := List.find?_some hf
-        simp only [List.all_eq_true, decide_eq_true_eq] at hready
-        have hperm : (out ++ [v]) ++ (x :: xs).erase v ~ out ++ x :: xs := by
-          have := (List.perm_cons_erase hv).symm
-          simpa using List.Perm.append_left out this
-        have hvout : v ∉ out := by
-          intro hvo
-          have := List.nodup_append.mp hnd
-          exact this.2.2 v hvo v hv rfl
-        obtain ⟨h1, h2⟩ := ih (out ++ [v]) ((x :: xs).erase v) l (hperm.symm.nodup hnd) (by
-          intro w hw u huw
-          cases List.mem_append.mp hw with
-          | inl hwo => exact (hinv w hwo u huw).trans (List.sublist_append_left _ _)
-          | inr hwv =>
-            have : w = v := by simpa using hwv
-            subst this
-            have huo : u ∈ out := hready u ((mem_preds wf).mpr huw)
-            exact List.Sublist.append (List.singleton_sublist.mpr huo) (List.Sublist.refl [w])) h
-        exact ⟨h1.trans hperm, h2⟩
-
-theorem topoLoop_complete {g : Graph α} (wf : g.WF) (ac : g.Acyclic) : ∀ (f : Nat) (out rem : List α), rem ⊆ g.vs →
-    rem.length ≤ f → (∀ x ∈ g.vs, x ∈ out ∨ x ∈ rem) → ∃ l, g.topoLoop f out rem = some l := by
-  intro f
-  induction f with
-  | zero =>
-    intro out rem _ hlen _
-    have : rem = [] := List.eq_nil_of_length_eq_zero (by omega)
-    subst this
-    exact ⟨out, by simp [topoLoop]⟩
-  | succ f ih =>
-    intro out rem hsub hlen hcov
-    cases rem with
-    | nil => exact ⟨out, by simp [topoLoop]⟩
-    | cons x xs =>
-      simp only [topoLoop]
-      obtain ⟨m, hm, hmin⟩ := exists_minimal ac (x :: xs) hsub (by simp)
-      have hex : ((x :: xs).find? (fun v => (g.preds v).all (fun u => u ∈ out))).isSome := by
-        rw [List.find?_isSome]
-        refine ⟨m, hm, ?_⟩
-        simp only [List.all_eq_true, decide_eq_true_eq]
-        intro u hu
-        have hum := (mem_preds wf).mp hu
-        cases hcov u (wf.src _ _ hum) with
-        | inl h => exact h
-        | inr h => exact absurd h (hmin u hum)
-      cases hf : (x :: xs).find? (fun v => (g.preds v).all (fun u => u ∈ out)) with
-      | none => rw [hf] at hex; cases hex
-      | some v =>
-        simp only []
-        have hv : v ∈ x :: xs := List.mem_of_find?_eq_some hf
-        apply ih
-        · exact fun y hy => hsub (List.mem_of_mem_erase hy)
-        · rw [List.length_erase_of_mem hv]
-          simp only [List.length_cons] at hlen ⊢
-          omega
-        · intro y hy
-          cases hcov y hy with
-          | inl h => exact .inl (List.mem_append_left _ h)
-          | inr h =>
-            by_cases hyv : y = v
-            · exact .inl (by simp [hyv])
-            · exact .inr ((List.mem_erase_of_ne hyv).mpr h)
-
-end Graph
-
-/-- whenever the repair's order exists it is a permutation of all mentioned names listing every callee before its callers -/
-theorem topoOrder_topological (inp : Input α) {l : List α} (h : topoOrder inp = some l) :
-    (∀ x, x ∈ l ↔ Mentioned inp x) ∧ l.Nodup ∧ Topological inp l := by
-  obtain ⟨wf, hvs, he⟩ := build_spec inp
-  obtain ⟨h1, h2⟩ := Graph.topoLoop_sound wf _ [] _ l (by simpa using wf.nodup) (by simp) h
-  simp only [List.nil_append] at h1
-  refine ⟨fun x => by rw [h1.mem_iff, hvs x]; rfl, h1.symm.nodup wf.nodup, ?_⟩
-  intro a b hab
-  have hE := (he a b).mpr hab
-  exact h2 b (h1.mem_iff.mpr (wf.tgt _ _ hE)) a hE
-
-/-- … and it exists for every acyclic input -/
-theorem topoOrder_complete (inp : Input α) (ac : Acyclic inp) : ∃ l, topoOrder inp = some l := by
-  obtain ⟨wf, _, _⟩ := build_spec inp
-  exact Graph.topoLoop_complete wf ((build_acyclic_iff inp).mpr ac) _ [] _ (fun _ h => h) (Nat.le_refl _) (fun x hx => .inr hx)
+  obtain ⟨l, h⟩ := (visitStart_ok_iff inp).mpr ac
+  obtain ⟨hnd, hmem, htopo⟩ := order_spec h
+  obtain ⟨k, hk⟩ := compiles_of_topological inp hnd (fun d hd => (hmem d.1).mpr (.inr ⟨d, hd, .inl rfl⟩)) hclosed htopo
+  exact ⟨k, by simp only [compileMacros, h, hk]⟩
 
 end ESV.Macro
